@@ -213,6 +213,9 @@ def exec_run(run, builds, seed, wdir, known):
     except Exception:
         res.stats = None
     res.nt_path = out + ".nt"
+    if rc == 5 and run.mode != "fuzz":   # the harness's own watchdog (a phase spun): inconclusive, like the safety-net timeout
+        res.timed_out = True
+        return res
     if res.timed_out:
         return res
     if run.mode == "fuzz":
@@ -532,7 +535,7 @@ def main(argv):
     k = 0
     for res in results:
         if res.timed_out:
-            inconclusive.append("%s: safety-net timeout after %ds" % (res.run.label, res.run.timeout))
+            inconclusive.append("%s: %s" % (res.run.label, "watchdog exit (a phase did not finish)" if res.rc == 5 else "safety-net timeout after %ds" % res.run.timeout))
             continue
         if res.run.mode == "fuzz":
             if res.crash:
